@@ -252,6 +252,18 @@ func checkProperty(c *Ctx, p *Property, tier string, seed int, known []KnownFind
 			}
 		}
 	}
+	// a rule may be listed more than once with different obligation filters: name it once
+	{
+		seen := map[string]bool{}
+		uniq := ruleNames[:0]
+		for _, r := range ruleNames {
+			if !seen[r] {
+				seen[r] = true
+				uniq = append(uniq, r)
+			}
+		}
+		ruleNames = uniq
+	}
 	vdir := verifDir()
 	evdir := filepath.Join(vdir, "evidence")
 	os.MkdirAll(filepath.Join(evdir, "replay"), 0o755)
